@@ -145,6 +145,82 @@ theorem wf_step_addContentTypePart (ct : CT) (index : Int) (kind : Str) (hok : S
     rw [List.any_eq_true]
     exact ⟨o, ho, by rw [heq, hb]; simp⟩
 
+theorem addDefault_has (ds : List (Str × Str)) (e c : Str) : (addDefault ds e c).any (·.1 == e) = true := by
+  unfold addDefault
+  split
+  · assumption
+  · simp [List.any_append]
+
+theorem addDefault_mono (ds : List (Str × Str)) (e c x : Str) (h : ds.any (·.1 == x) = true) :
+    (addDefault ds e c).any (·.1 == x) = true := by
+  unfold addDefault
+  split
+  · exact h
+  · simp only [List.any_append, h, Bool.true_or]
+
+theorem foldl_addDefault_mono (l : List (String × String)) (ds : List (Str × Str)) (x : Str)
+    (h : ds.any (·.1 == x) = true) :
+    (l.foldl (fun acc p => addDefault acc (sl p.1) (sl p.2 ++ sl p.1)) ds).any (·.1 == x) = true := by
+  induction l generalizing ds with
+  | nil => exact h
+  | cons p ps ih => exact ih _ (addDefault_mono ds _ _ x h)
+
+theorem foldl_addDefault_has (l : List (String × String)) (ds : List (Str × Str)) :
+    ∀ p ∈ l, (l.foldl (fun acc q => addDefault acc (sl q.1) (sl q.2 ++ sl q.1)) ds).any (·.1 == sl p.1) = true := by
+  induction l generalizing ds with
+  | nil => intro p hp; cases hp
+  | cons q qs ih =>
+    intro p hp
+    rcases List.mem_cons.mp hp with h | h
+    · subst h
+      exact foldl_addDefault_mono qs _ _ (addDefault_has ds _ _)
+    · exact ih _ p h
+
+theorem addImageDefaults_has (ds : List (Str × Str)) :
+    ∀ p ∈ Facts.C05.imageDefaults, (addImageDefaults ds).any (·.1 == sl p.1) = true := by
+  unfold addImageDefaults
+  exact foldl_addDefault_has Facts.C05.imageDefaults ds
+
+/-- the Default list after addContentTypePart: the kind's registrations, plus possibly `rels` -/
+theorem addContentTypePart_defaults (ct : CT) (index : Int) (kind : Str) :
+    (addContentTypePart ct index kind).defaults =
+        (if kind == sl "comments" then addDefault ct.defaults (sl Facts.C05.vmlDefault.1) (sl Facts.C05.vmlDefault.2)
+         else if kind == sl "drawings" then addImageDefaults ct.defaults else ct.defaults) ∨
+    (addContentTypePart ct index kind).defaults =
+        addDefault (if kind == sl "comments" then addDefault ct.defaults (sl Facts.C05.vmlDefault.1) (sl Facts.C05.vmlDefault.2)
+         else if kind == sl "drawings" then addImageDefaults ct.defaults else ct.defaults)
+          (sl Facts.C05.relsDefault.1) (sl Facts.C05.relsDefault.2) := by
+  unfold addContentTypePart
+  dsimp only
+  split
+  · left; rfl
+  · right; rfl
+
+/-- `addContentTypePart_registers_defaults`: whatever the state — in particular when
+the Override of the part already exists (package written by another producer) —
+after addContentTypePart("drawings") every image extension the drawing code may
+store has a Default, and after addContentTypePart("comments") the vml extension has
+one: the parts these kinds produce always have a content type. -/
+theorem addContentTypePart_registers_defaults (ct : CT) (index : Int) :
+    (∀ p ∈ Facts.C05.imageDefaults,
+        (addContentTypePart ct index (sl "drawings")).defaults.any (·.1 == sl p.1) = true) ∧
+    (addContentTypePart ct index (sl "comments")).defaults.any (·.1 == sl Facts.C05.vmlDefault.1) = true := by
+  have hd : (sl "drawings" == sl "comments") = false := by decide +kernel
+  have hc : (sl "comments" == sl "comments") = true := by decide +kernel
+  have hdd : (sl "drawings" == sl "drawings") = true := by decide +kernel
+  constructor
+  · intro p hp
+    have h := addImageDefaults_has ct.defaults p hp
+    rcases addContentTypePart_defaults ct index (sl "drawings") with e | e <;>
+      rw [e] <;> simp only [hd, hdd, Bool.false_eq_true, if_false, if_true]
+    · exact h
+    · exact addDefault_mono _ _ _ _ h
+  · have h := addDefault_has ct.defaults (sl Facts.C05.vmlDefault.1) (sl Facts.C05.vmlDefault.2)
+    rcases addContentTypePart_defaults ct index (sl "comments") with e | e <;>
+      rw [e] <;> simp only [hc, if_true]
+    · exact h
+    · exact addDefault_mono _ _ _ _ h
+
 /-- `wf_step_removeContentTypesPart`: with one Override per part name the
 removal does not panic and keeps the invariant. -/
 theorem wf_step_removeContentTypesPart (ct : CT) (ctype part : Str) (hok : Spec.ctOk ct) :
